@@ -426,6 +426,8 @@ def judge(out, fail, hist, steps, label):
                 if o[0] == "raise" and o[1] == "UndeclaredDependencyError":
                     out["obs"]["undeclared_dependency_outcomes"] += 1
                     continue
+                if o != want and o[0] == "raise" and want[0] == "raise" and [str(x).replace("tw_", "") for x in want] == [str(x) for x in o]:
+                    continue  # (the same failure of the program itself; the twin's modules carry a prefix in their names)
                 if o != want:
                     stale_of = None
                     for back in range(k - 1, -1, -1):
